@@ -28,3 +28,7 @@ def check(ctx):
     scopes.rule_scope_always_opened(ctx, facts, "R5")
     from .. import provrules
     provrules.rule_scope_sampling(ctx, facts, "R6")
+    from .. import collector
+    c = collector.Collector(ctx, facts)
+    if c.need("R7"):
+        collector.rule_stale_kept(ctx, c, "R7")        # C13-R9: what the last call records is delivered also under a parent released earlier
